@@ -316,7 +316,7 @@ func c12Oracle(ex *c12Exec, expectBubble bool) []c12Finding {
 var c12Stores = []string{"rmap", "ctl", "nstruct", "rstruct", "nmap"}
 
 func c12Gen(r *kit.Rng) *c12Scenario {
-	sk := c12Stores[r.Intn(len(c12Stores))]
+	sk := store.Variant(r, c12Stores[r.Intn(len(c12Stores))])
 	st, _ := store.New(sk)
 	caps := st.Caps()
 	caps.MaxNodes = 18
@@ -384,7 +384,7 @@ func c12Explore(sc *c12Scenario, seed uint64, pairs int, r *kit.Rng) (out RunOut
 	if sc.Extend {
 		out.Stats.Inc("target-inside-nodeutil.Extend")
 	}
-	out.Stats.Inc("store:" + sc.Store)
+	out.Stats.Inc("store:" + store.KeyName(sc.Store))
 	out.Stats.Inc("op:" + sc.Op.Kind)
 	if base.res.Err != nil {
 		out.Stats.Inc("baseline-returned-error")
